@@ -217,3 +217,24 @@ Proof.
   - discriminate.
   - destruct H as [h' [E _]]. discriminate.
 Qed.
+
+(* decode side of the general serialisation: every signature agrees with the first on b64 *)
+Theorem dec_general_all_agree ps : dec_general_consistent ps = true ->
+  forall p q, In p ps -> In q ps -> extract_b64 p = extract_b64 q.
+Proof.
+  destruct ps as [|p0 r]; [intros _ p q []|]. cbn [dec_general_consistent]. intros H.
+  assert (forall p, In p (p0 :: r) -> extract_b64 p = extract_b64 p0) as A.
+  { intros p [<-|Hp]; [reflexivity|]. rewrite forallb_forall in H. apply Bool.eqb_prop. exact (H p Hp). }
+  intros p q Hp Hq. rewrite (A p Hp), (A q Hq). reflexivity.
+Qed.
+Theorem dec_general_complete ps : (forall p q, In p ps -> In q ps -> extract_b64 p = extract_b64 q) -> dec_general_consistent ps = true.
+Proof.
+  destruct ps as [|p0 r]; [reflexivity|]. intros H. cbn [dec_general_consistent]. apply forallb_forall. intros p Hp.
+  rewrite (H p p0 (or_intror Hp) (or_introl eq_refl)). apply Bool.eqb_reflx.
+Qed.
+Theorem dec_general_pinned_refuted : exists ps p q, dec_general_consistent_pinned ps = true /\ In p ps /\ In q ps /\ extract_b64 p <> extract_b64 q.
+Proof.
+  exists [None; Some {| h_alg := true; h_b64 := Some false; h_crit := Some [N_B64]; h_common := []; h_custom := None |}], None,
+         (Some {| h_alg := true; h_b64 := Some false; h_crit := Some [N_B64]; h_common := []; h_custom := None |}).
+  split; [reflexivity|]. split; [left; reflexivity|]. split; [right; left; reflexivity|]. cbn. discriminate.
+Qed.
